@@ -1,48 +1,68 @@
 #!/usr/bin/env python3
-"""seed_matrix.py [IDs...]: for every seeded change under /verif/seeded apply it to /repo's working tree, run the demonstration and the
-quick check of its property, undo it, and write the outcome to seeded/<ID>/verify.json (never commits anything to /repo)."""
-import json, os, subprocess, sys, time, re
+"""seed_matrix.py [--jobs N] [IDs...]: for every seeded change under /verif/seeded (e.g. C13, C13b: the property is the first three
+characters) make a scratch worktree of /repo's HEAD under /tmp, apply the patch THERE, run the demonstration and the quick check of
+its property against that worktree (VERIF_REPO), remove the worktree, and write the outcome to seeded/<ID>/verify.json.
+/repo's own working tree is never modified and nothing is committed.  New agent output in /tmp/seed_<ID>/ is imported first."""
+import json, os, re, shutil, subprocess, sys, time
 
 ROOT = "/verif"
 env = dict(os.environ, OMP_NUM_THREADS="1", MKL_NUM_THREADS="1")
 
 
 def sh(cmd, **kw):
-    return subprocess.run(cmd, shell=True, capture_output=True, text=True, env=env, **kw)
+    e = dict(env)
+    e.update(kw.pop("env", {}))
+    return subprocess.run(cmd, shell=True, capture_output=True, text=True, env=e, **kw)
 
 
 def main():
-    ids = sys.argv[1:] or sorted(os.listdir(ROOT + "/seeded"))
-    if sh("git -C /repo diff --quiet").returncode != 0:
-        print("repo dirty"); sys.exit(2)
+    args = sys.argv[1:]
+    jobs = None
+    if args and args[0] == "--jobs":
+        jobs = args[1]
+        args = args[2:]
+    ids = args or sorted(os.listdir(ROOT + "/seeded"))
     for sid in ids:
         d = "%s/seeded/%s" % (ROOT, sid)
+        src = "/tmp/seed_%s" % sid
+        if not os.path.exists(d + "/patch.diff") and os.path.exists(src + "/patch.diff"):
+            os.makedirs(d, exist_ok=True)
+            for f in ("patch.diff", "demo.py", "notes.md"):
+                if os.path.exists(src + "/" + f):
+                    shutil.copy(src + "/" + f, d + "/" + f)
         if not os.path.exists(d + "/patch.diff"):
             continue
-        out = {}
-        r = sh("/venv/bin/python %s/demo.py" % d, cwd="/repo")
-        out["demo_rc_without_change"] = r.returncode
-        a = sh("git -C /repo apply %s/patch.diff" % d)
-        if a.returncode != 0:
-            out["apply_error"] = a.stderr[-300:]
-        else:
-            try:
-                r = sh("/venv/bin/python %s/demo.py" % d, cwd="/repo")
+        prop = sid[:3]
+        wt = "/tmp/seedwt_%s" % sid
+        sh("git -C /repo worktree remove --force %s" % wt)
+        out = {"head": sh("git -C /repo rev-parse --short HEAD").stdout.strip()}
+        a = sh("git -C /repo worktree add --detach %s HEAD" % wt)
+        try:
+            r = sh("/venv/bin/python %s/demo.py" % d, cwd=wt)
+            out["demo_rc_without_change"] = r.returncode
+            a = sh("git -C %s apply %s/patch.diff" % (wt, d))
+            if a.returncode != 0:
+                a = sh("git -C %s apply -C1 %s/patch.diff" % (wt, d))
+            if a.returncode != 0:
+                out["apply_error"] = a.stderr[-300:]
+            else:
+                r = sh("/venv/bin/python %s/demo.py" % d, cwd=wt)
                 out["demo_rc_with_change"] = r.returncode
+                out["demo_tail_with_change"] = (r.stdout + r.stderr)[-400:]
                 t = time.time()
-                c = sh("./check %s --tier quick --no-evidence" % sid, cwd=ROOT)
+                c = sh("./check %s --tier quick --no-evidence %s" % (prop, "--jobs %s" % jobs if jobs else ""), cwd=ROOT,
+                       env={"VERIF_REPO": wt})
                 out["quick_check_rc_with_change"] = c.returncode
                 out["quick_check_wall_s"] = round(time.time() - t, 1)
                 v = [l for l in c.stdout.splitlines() if l.startswith("VIOLATION")]
                 out["violation_lines"] = len(v)
                 out["violations_sample"] = [re.sub(r".*replay=/verif/replays/", "", l) for l in v[:8]]
-                out["summary"] = [l for l in c.stdout.splitlines() if l.startswith(sid + " tier=")][-1:]
-            finally:
-                sh("git -C /repo checkout -- .")
-        out["head"] = sh("git -C /repo rev-parse --short HEAD").stdout.strip()
+                out["summary"] = [l for l in c.stdout.splitlines() if l.startswith(prop + " tier=")][-1:]
+        finally:
+            sh("git -C /repo worktree remove --force %s" % wt)
         json.dump(out, open(d + "/verify.json", "w"), indent=1)
         print(sid, out.get("demo_rc_without_change"), out.get("demo_rc_with_change"), out.get("quick_check_rc_with_change"),
-              out.get("violation_lines"), out.get("quick_check_wall_s"), flush=True)
+              out.get("violation_lines"), out.get("quick_check_wall_s"), (out.get("violations_sample") or [""])[0], flush=True)
 
 
 main()
